@@ -128,6 +128,11 @@ def run(chk):
                 "distinct = scenarios")
     r = tlc.mc("MeshDhcp", "MeshDhcp", timeout=900)
     chk.add_tlc(r, "master's allocation: distinct leases (MeshDhcp)")
+    rj = tlc.mc("MeshJoin", "MeshJoin", timeout=900)
+    chk.add_tlc(rj, "join protocol (poll / request / response / confirmation, free interleaving, bounded latency): distinct "
+                    "addresses, table agreement")
+    ru = tlc.run("MeshJoin", "MeshJoin_unbounded", timeout=900)
+    chk.extra["join_protocol_with_unbounded_latency"] = ("violates " + str(ru.get("violated"))) if not ru["ok"] else "holds"
     jobs = build(chk)
     with ProcessPoolExecutor(16) as ex:
         traces = list(ex.map(scenario, jobs))
